@@ -183,6 +183,13 @@ def gen_case(rng):
     upe = rng.choice([-1, -1, -1, -1, 21])
     nops = rng.choice([0, 1, 1, 2, 2, 3, 4, 6])
     ops = [gen_op(rng, n) for _ in range(nops)]
+    # the scripted draw list is installed per pipeline (one stand-in for the `random` module): at most one shuffle each
+    seen = False
+    for i, o in enumerate(ops):
+        if o[0] == 'shuffle':
+            if seen:
+                ops[i] = ['peek']
+            seen = True
     return {'ops': ops, 'xs': xs, 'upe': upe, 'mode': rng.choice(['iter', 'collect', 'drain'])}
 
 
